@@ -35,7 +35,7 @@ pub fn prop() -> Prop {
             Tier::Quick => 30,
             Tier::Thorough => 300,
         },
-        required_probes: &["cloned_rng_state", "dkg_completed", "own_id_smallest", "own_id_largest", "ids_derived", "ids_scalar", "ids_u16ext", "t_eq_n", "crash_during_dkg", "signed_after_dkg", "taproot_dkg", "t_ge_17"],
+        required_probes: &["root_at_peer_key_generation", "cloned_rng_state", "dkg_completed", "own_id_smallest", "own_id_largest", "ids_derived", "ids_scalar", "ids_u16ext", "t_eq_n", "crash_during_dkg", "signed_after_dkg", "taproot_dkg", "t_ge_17"],
         prepare: None,
     }
 }
@@ -226,10 +226,109 @@ pub fn check_dkg_outcome<C: Suite>(sim: &Sim<C>, scen: &Scenario, inst: u32, rep
     None
 }
 
+/// An honest key generation in which one participant's polynomial happens to have a ROOT at a peer's identifier, so that the share
+/// it sends to that peer is the zero scalar (random polynomials never do; the random-source seam replays crafted draws for that one
+/// participant): everybody must still complete with consistent key material.
+fn root_at_peer<C: Suite>(scen: &Scenario, rep: &mut RunReport) -> Option<Violation> {
+    use crate::simrng::SimRng;
+    use frost_core::keys::dkg;
+    use std::collections::BTreeMap;
+    let mut g = stream(scen.seed, scen.run, "c07/root_at_peer");
+    let n = 3usize + g.below(2) as usize;
+    let t = 2usize + g.below(2) as usize;
+    let ids: Vec<frost_core::Identifier<C>> = (0..n).map(|k| id_from_scalar::<C>(&sc_from_u64::<C>([1u64, 2, 3, 5][k] + if scen.run % 3 == 0 { 254 } else { 0 })).unwrap()).collect();
+    let (who, peer) = (g.below(n as u64) as usize, 0usize);
+    let peer = if who == peer { 1 } else { peer };
+    let x = id_scalar::<C>(&ids[peer]);
+    let higher: Vec<Scalar<C>> = (1..t).map(|_| sc_random_nonzero::<C>(&mut g)).collect();
+    let mut a0 = zero::<C>();
+    let mut xp = one::<C>();
+    for a in &higher {
+        xp = xp * x;
+        a0 = a0 - *a * xp;
+    }
+    let mut tape = Vec::new();
+    for sc in std::iter::once(&a0).chain(higher.iter()) {
+        match craft_draw::<C>(*sc) {
+            Some(b) => tape.extend_from_slice(&b),
+            None => {
+                rep.probe("root_at_peer_not_craftable");
+                return None;
+            }
+        }
+    }
+    let mut secs = Vec::new();
+    let mut r1: BTreeMap<frost_core::Identifier<C>, dkg::round1::Package<C>> = BTreeMap::new();
+    for (k, id) in ids.iter().enumerate() {
+        let fallback = stream(scen.seed, scen.run, &format!("c07/root_at_peer/rng/{k}"));
+        let rng = if k == who { SimRng::replay(tape.clone(), fallback) } else { SimRng::good(fallback) };
+        match C::w_dkg_part1(*id, n as u16, t as u16, &mut { rng }) {
+            Ok((sec, pkg)) => {
+                secs.push(sec);
+                r1.insert(*id, pkg);
+            }
+            Err(e) => return Some(Violation::new("C07", "C07.honest_step_failed", format!("part1 of participant {k} (crafted polynomial: {}) failed: {e:?}", k == who))),
+        }
+    }
+    let mut s2s = Vec::new();
+    let mut r2_for: Vec<BTreeMap<frost_core::Identifier<C>, dkg::round2::Package<C>>> = vec![BTreeMap::new(); n];
+    for k in 0..n {
+        let mut others = r1.clone();
+        others.remove(&ids[k]);
+        match C::w_dkg_part2(secs[k].clone(), &others) {
+            Ok((s2, out)) => {
+                for (to, pkg) in out {
+                    let pos = ids.iter().position(|i| *i == to).unwrap();
+                    r2_for[pos].insert(ids[k], pkg);
+                }
+                s2s.push(s2);
+            }
+            Err(e) => return Some(Violation::new("C07", "C07.honest_step_failed", format!("part2 of participant {k} failed in a key generation where participant {who}'s polynomial has a root at participant {peer}'s identifier: {e:?}"))),
+        }
+    }
+    // the construction must have produced the zero share, else it is off (no verdict)
+    let zero_b = sc_bytes::<C>(&zero::<C>());
+    if r2_for[peer].get(&ids[who]).map(|p| p.signing_share().serialize()) != Some(zero_b) {
+        rep.probe("root_at_peer_construction_off");
+        return None;
+    }
+    let mut outs = Vec::new();
+    for k in 0..n {
+        let mut others = r1.clone();
+        others.remove(&ids[k]);
+        rep.evaluations += 1;
+        match C::w_dkg_part3(&s2s[k], &others, &r2_for[k]) {
+            Ok(x) => outs.push(x),
+            Err(e) => {
+                return Some(Violation::new(
+                    "C07",
+                    "C07.honest_step_failed",
+                    format!("part3 of participant {k} failed in an HONEST {t}-of-{n} key generation in which participant {who}'s polynomial has a root at participant {peer}'s identifier (its share for that peer is the zero scalar): {e:?}"),
+                ))
+            }
+        }
+    }
+    for (k, (kp, pk)) in outs.iter().enumerate() {
+        if let Some(v) = check_key_material::<C>("C07", &format!("root-at-peer key generation, participant {k}"), kp, pk, t as u16, Some(&ids)) {
+            return Some(v);
+        }
+        if *pk != outs[0].1 {
+            return Some(Violation::new("C07", "C07.public_key_packages_differ", format!("root-at-peer key generation: participant {k} holds another PublicKeyPackage")));
+        }
+    }
+    rep.probe("root_at_peer_key_generation");
+    None
+}
+
 fn exec_c<C: Suite>(scen: &Scenario) -> Exec {
     let mut rep = new_report(scen);
     if scen.extra.get("rng_alias").is_some() {
         rep.probe("cloned_rng_state");
+    }
+    if scen.run % 3 == 0 || scen.run < 12 {
+        if let Some(v) = root_at_peer::<C>(scen, &mut rep) {
+            return Exec::Violation(v, rep);
+        }
     }
     let sim = match run_honest::<C>(scen, &mut rep) {
         Ok(s) => s,
